@@ -401,6 +401,7 @@ def replay_history(args):
     fp = use_repo()
     import pandas as pd
     d = os.path.join(base, "h%d" % hid, "ds")
+    shutil.rmtree(os.path.dirname(d), ignore_errors=True)      # a re-run of this job starts clean
     os.makedirs(os.path.dirname(d))
     out = {"hid": hid, "ops": [], "traces": [], "evals": 0}
     try:
